@@ -471,6 +471,105 @@ def spec_jointrecurrencenetwork():
                          "recurrence_rate()", "determinism()", "laminarity()"], argsets={})
 
 
+def spec_jointrecurrenceplot():
+    from pyunicorn.timeseries import JointRecurrencePlot
+
+    def make(rng):
+        n = rng.choice([10, 13])
+        x = np.array([rng.randrange(0, 9) / 2 for _ in range(n)])
+        y = np.array([rng.randrange(0, 9) / 2 for _ in range(n)])
+        o = JointRecurrencePlot(x, y, threshold=(1.25, 1.75), silence_level=3)
+        o._verif = ("threshold", (1.25, 1.75))
+        o._verif_ts = (x, y)
+        return o
+
+    def twin(o):
+        kind, val = o._verif
+        return JointRecurrencePlot(o._verif_ts[0], o._verif_ts[1], silence_level=3, **{kind: val})
+
+    def st(o, rng):
+        v = rng.choice([t for t in ((0.75, 1.25), (1.75, 2.25), (2.25, 0.75), (2.75, 2.75))
+                        if ("threshold", t) != o._verif])
+        o.set_fixed_threshold(v)
+        o._verif = ("threshold", v)
+
+    def sts(o, rng):
+        v = rng.choice([t for t in ((0.5, 0.75), (1.0, 0.5), (0.25, 1.5))
+                        if ("threshold_std", t) != o._verif])
+        o.set_fixed_threshold_std(v)
+        o._verif = ("threshold_std", v)
+
+    def rr(o, rng):
+        v = rng.choice([r for r in ((0.3, 0.4), (0.5, 0.5), (0.6, 0.3))
+                        if ("recurrence_rate", r) != o._verif])
+        o.set_fixed_recurrence_rate(v)
+        o._verif = ("recurrence_rate", v)
+    return dict(cls=JointRecurrencePlot, make=make, twin=twin,
+                mutators={"set_fixed_threshold": st, "set_fixed_threshold_std": sts,
+                          "set_fixed_recurrence_rate": rr},
+                summary=["N", "recurrence_matrix()", "recurrence_rate()", "determinism()",
+                         "laminarity()", "max_diaglength()", "white_vertline_dist()"], argsets={})
+
+
+def spec_intersystem():
+    from pyunicorn.timeseries import InterSystemRecurrenceNetwork
+
+    def make(rng):
+        nx, ny = rng.choice([6, 7]), rng.choice([5, 8])
+        x = np.array([rng.randrange(0, 9) / 2 for _ in range(nx)])
+        y = np.array([rng.randrange(0, 9) / 2 for _ in range(ny)])
+        o = InterSystemRecurrenceNetwork(x, y, threshold=(1.25, 1.75, 1.25), silence_level=3)
+        o._verif = ("threshold", (1.25, 1.75, 1.25))
+        o._verif_ts = (x, y)
+        return o
+
+    def twin(o):
+        kind, val = o._verif
+        return InterSystemRecurrenceNetwork(o._verif_ts[0], o._verif_ts[1], silence_level=3,
+                                            **{kind: val})
+
+    def st(o, rng):
+        v = rng.choice([t for t in ((0.75, 1.25, 1.75), (1.75, 2.25, 0.75), (2.25, 0.75, 2.25))
+                        if ("threshold", t) != o._verif])
+        o.set_fixed_threshold(v)
+        o._verif = ("threshold", v)
+
+    def rr(o, rng):
+        v = rng.choice([r for r in ((0.3, 0.4, 0.3), (0.5, 0.5, 0.2), (0.6, 0.3, 0.5))
+                        if ("recurrence_rate", r) != o._verif])
+        o.set_fixed_recurrence_rate(v)
+        o._verif = ("recurrence_rate", v)
+    return dict(cls=InterSystemRecurrenceNetwork, make=make, twin=twin,
+                mutators={"set_fixed_threshold": st, "set_fixed_recurrence_rate": rr},
+                summary=["N", "n_links", "link_density", "adjacency", "inter_system_recurrence_matrix()",
+                         "internal_recurrence_rates()", "cross_recurrence_rate()",
+                         "cross_global_clustering_xy()", "cross_transitivity_xy()"],
+                argsets={})
+
+
+def spec_spatialnetwork():
+    from pyunicorn.core import SpatialNetwork, Grid
+
+    def make(rng):
+        n = rng.choice([6, 7])
+        A = conn_graph(rng, n)
+        nprng = np.random.RandomState(rng.randrange(2 ** 31))
+        grid = Grid(np.arange(4.0), nprng.rand(2, n) * 10, silence_level=3)
+        net = SpatialNetwork(grid=grid, adjacency=A, silence_level=3)
+        net.set_link_attribute("w", sym_attr(rng, A))
+        net.set_link_attribute("v", sym_attr(rng, A))
+        return net
+
+    def twin(o):
+        t = SpatialNetwork(grid=o.grid, adjacency=o.adjacency, directed=o.directed,
+                           silence_level=3)
+        t.node_weights = o.node_weights.copy()
+        copy_link_attrs(o, t)
+        return t
+    return dict(cls=SpatialNetwork, make=make, twin=twin, mutators=NET_MUT, summary=SUMMARY_NET,
+                argsets={"key": ["w"], "link_attribute": ["w"]})
+
+
 def spec_crossrecurrenceplot():
     from pyunicorn.timeseries import CrossRecurrencePlot
 
@@ -530,7 +629,7 @@ def spec_interacting():
                 summary=SUMMARY_NET + summ, argsets={}, only_summary=True)
 
 
-def _climate_from_data(cls_name, knob, values, extra_kw=None):
+def _climate_from_data(cls_name, knob, values, extra_kw=None, flip_kw=None):
     """spec builder for climate networks that derive their similarity from a ClimateData
     object and can re-derive it on a live object (set_<knob>)"""
     def spec():
@@ -564,7 +663,7 @@ def _climate_from_data(cls_name, knob, values, extra_kw=None):
 
         def flip(o, rng):
             v = rng.choice([x for x in values if x != o._verif_knob])
-            getattr(o, "set_" + knob)(v)
+            getattr(o, "set_" + knob)(v, **(flip_kw or {}))
             o._verif_knob = v
         mut = {
             "set_threshold": lambda o, rng: o.set_threshold(
@@ -587,6 +686,15 @@ SPECS = {
     "TsonisClimateNetwork": _climate_from_data("TsonisClimateNetwork", "winter_only", [False, True]),
     "HavlinClimateNetwork": _climate_from_data("HavlinClimateNetwork", "max_delay", [2, 4]),
     "HilbertClimateNetwork": _climate_from_data("HilbertClimateNetwork", "directed", [False, True]),
+    "SpearmanClimateNetwork": _climate_from_data("SpearmanClimateNetwork", "winter_only", [False, True]),
+    "PartialCorrelationClimateNetwork": _climate_from_data("PartialCorrelationClimateNetwork",
+                                                           "winter_only", [False, True]),
+    # dump=False: the stored file is exercised by mi_file_history, not shared between objects
+    "MutualInfoClimateNetwork": _climate_from_data("MutualInfoClimateNetwork", "winter_only",
+                                                   [False, True], flip_kw={"dump": False}),
+    "JointRecurrencePlot": spec_jointrecurrenceplot,
+    "InterSystemRecurrenceNetwork": spec_intersystem,
+    "SpatialNetwork": spec_spatialnetwork,
 }
 
 SKIP_QUERIES = {"cache_clear", "_nsi_betweenness"}
@@ -751,7 +859,72 @@ def unstable(spec, obj, m, kw, fresh):
         return True
 
 
+def mi_file_history(ctx):
+    """MutualInfoClimateNetwork stores its matrix in a file of the working directory
+    (dump=True is the default of set_winter_only) and loads it back: a change of the setting must
+    never bring back the matrix stored for the previous setting."""
+    import pyunicorn.climate as C
+    from pyunicorn.core import GeoGrid
+    rng = ctx.rng
+    for rep in range(3):
+        T, n = 36, rng.choice([4, 5])
+        obs = np.random.RandomState(rng.randrange(2 ** 31)).randn(T, n)
+        grid = GeoGrid(np.arange(float(T)), np.arange(n) * 10. - 20, np.arange(n) * 20.,
+                       silence_level=3)
+
+        def mk(w):
+            for f in os.listdir("."):
+                if f.startswith("mutual_information_"):
+                    os.remove(f)
+            return quiet(C.MutualInfoClimateNetwork,
+                         C.ClimateData(observable=obs.copy(), grid=grid, time_cycle=12,
+                                       silence_level=3),
+                         threshold=0.3, winter_only=w, silence_level=3)
+        fresh = {w: quiet(lambda: mk(w).similarity_measure().copy()) for w in (False, True)}
+        w0 = rng.choice([False, True])
+        o = mk(w0)
+        hist = [f"init winter_only={w0}"]
+        for w in (not w0, w0, not w0):
+            hist.append(f"set_winter_only({w})")
+            ctx.case(("mi-file", rep, tuple(hist)), True)
+            ctx.count("MutualInfoClimateNetwork:file-histories")
+            try:
+                quiet(o.set_winter_only, w)
+            except Exception as ex:  # noqa
+                ctx.fail({"kind": "mutator-raises", "class": "MutualInfoClimateNetwork",
+                          "mutator": "set_winter_only(dump=True)", "error": type(ex).__name__},
+                         f"MutualInfoClimateNetwork.set_winter_only({w}) raised "
+                         f"{type(ex).__name__}: {ex}", {"history": hist, "observable": obs.tolist()})
+                break
+            if not np.array_equal(o.similarity_measure(), fresh[w]):
+                ctx.fail({"kind": "stale-summary", "class": "MutualInfoClimateNetwork",
+                          "attribute": "similarity_measure()", "mutator": "set_winter_only(dump=True)"},
+                         f"similarity_measure() after {hist} is not the matrix of the current setting "
+                         "(matrix stored in the working directory for the previous setting came back)",
+                         {"history": hist, "observable": obs.tolist()})
+                break
+
+
 def run(ctx):
+    # several classes write files to the working directory (MI dumps): work in a scratch one
+    import tempfile
+    import shutil
+    old = os.getcwd()
+    tmp = tempfile.mkdtemp(prefix="c01cwd")
+    os.chdir(tmp)
+    try:
+        mi_file_history(ctx)
+        # the stored matrix is an *input* of every later constructor call in this directory
+        # (documented persistent cache): remove it so that fresh twins compute from their data
+        for f in os.listdir("."):
+            os.remove(f)
+        return _run(ctx)
+    finally:
+        os.chdir(old)
+        shutil.rmtree(tmp, ignore_errors=True)
+
+
+def _run(ctx):
     rng = ctx.rng
     quick = ctx.tier == "quick"
     ctx.rule = ("for each class spec: every (cached query x argument variant, mutator) pair once "
